@@ -610,6 +610,25 @@ pub fn gen_srv(rng: &mut Rng, count: u64, tier: &str) -> Vec<String> {
             out.push(g);
         }
     }
+    // every opcode, cut to 2..5 bytes (no field of any packet kind may be read past the end), then the probe
+    for flags in ["-", "s"] {
+        for op in 0u8..=7 {
+            let mut steps = vec![];
+            for len in 2usize..=5 {
+                let mut v = vec![0u8, op, 0, 1, 0];
+                v.truncate(len);
+                steps.push(format!("g{}:{}", len - 2, hex(&v)));
+            }
+            steps.push(probe.clone());
+            out.push(format!("srv {flags} 0 {tree} {}", steps.join(";")));
+        }
+    }
+    // names that do not exist, with tsize (and other options): the refusal must come
+    for flags in ["-", "s"] {
+        let t = vec![("tsize".to_string(), "0".to_string())];
+        let tb = vec![("blksize".to_string(), "1024".to_string()), ("tsize".to_string(), "0".to_string())];
+        out.push(format!("srv {flags} 0 {tree} q0:{}:D;q1:{}:D;q2:{}:D;{probe}", hex(&req(1, b"nope", &t)), hex(&req(1, b"sub/nope.bin", &tb)), hex(&req(1, b"a.txt", &t))));
+    }
     // one endpoint, several transfers one after the other (the routing entry of a finished transfer must not linger)
     for flags in ["s", "so", "-", "sd"] {
         let d1 = hex(&req(1, b"a.txt", &[]));
@@ -655,7 +674,9 @@ pub fn gen_srv(rng: &mut Rng, count: u64, tier: &str) -> Vec<String> {
                 0 | 1 => steps.push(format!("g{}:{}", c, { let g = garbage(rng); if g.is_empty() { "-".to_string() } else { hex(&g) } })),
                 2 | 3 | 4 | 5 => {
                     let name = pick_name(rng, false);
-                    let known = name.ends_with(b"txt") || name.ends_with(b"bin") || name.ends_with(b"big") || name.ends_with(b"empty");
+                    // tsize also with names that do not exist (the size must not be looked up before the refusal); not with names that
+                    // resolve to a directory: the size of a directory depends on the file system
+                    let known = name.ends_with(b"txt") || name.ends_with(b"bin") || name.ends_with(b"big") || name.ends_with(b"empty") || name.ends_with(b"nope") || name.ends_with(b"/x");
                     let opts = pick_opts(rng, known);
                     let cont = if rng.chance(1, 12) { "E" } else { "D" };
                     steps.push(format!("q{}:{}:{}", c, hex(&req(1, &name, &opts)), cont));
